@@ -444,8 +444,13 @@ func loadIpMarkerFromFile(fp string) (*ipMarker, error) {
 }
 
 func cacheKey(q *dnsmsg.Question, mark string) pool.Buffer {
-	b := pool.GetBuf(len(q.Name) + 4 + len(mark))
-	off := copy(b, q.Name)
+	// Name and mark are both of variable length. The key starts with the
+	// length of the name (at most 254), otherwise the octets of name, class,
+	// type and mark could be cut in more than one way and different queries
+	// would share a key.
+	b := pool.GetBuf(1 + len(q.Name) + 4 + len(mark))
+	b[0] = byte(len(q.Name))
+	off := 1 + copy(b[1:], q.Name)
 	binary.BigEndian.PutUint16(b[off:], uint16(q.Class))
 	off += 2
 	binary.BigEndian.PutUint16(b[off:], uint16(q.Type))
